@@ -67,6 +67,11 @@ def snap(x):
         d['vertices'] = arr_snap(x.vertices); d['faces'] = arr_snap(x.faces)
     elif isinstance(x, navis.Dotprops):
         d['points'] = arr_snap(x.points); d['vect'] = arr_snap(getattr(x, '_vect', None)); d['alpha'] = arr_snap(getattr(x, '_alpha', None)); d['k'] = x.k
+        try:      # a derived value: every point is its own nearest neighbour in the neuron's KD tree (cached across operations)
+            dd_, _ix = x.kdtree.query(np.asarray(x.points, dtype=float))
+            d['kdtree_self_distance_is_zero'] = bool(np.max(np.abs(dd_)) <= 1e-6 * max(1.0, float(np.abs(np.asarray(x.points)).max()))) if len(x.points) else True
+        except Exception as e:
+            d['kdtree_self_distance_is_zero'] = 'error: %s' % type(e).__name__
     elif isinstance(x, navis.VoxelNeuron):
         d['grid'] = arr_snap(x.grid); d['offset'] = arr_snap(x.offset)
     return d
@@ -227,6 +232,7 @@ def gen_dotprops(rng):
         d = navis.make_dotprops(pts.copy(), k=5)
         d.name, d.id, d.units = 'dp%d' % nid, nid, '8 nm'
         d.connectors = cn.copy()
+        _ = d.kdtree            # warm the cached KD tree, as any earlier query / NBLAST would have
         return d
     return Spec('dp', build, dict(kind='dotprops', n_points=n, id=nid))
 
@@ -365,6 +371,10 @@ def catalogue():
     add('persistence_points', 'sk', lambda x, p, i: navis.persistence_points(x), inplace=False)
     add('stitch_skeletons', 'sk', lambda x, p, i: navis.stitch_skeletons(navis.NeuronList([x, p['other']()]), method='LEAFS'),
         lambda x, rng: dict(other=gen_skeleton(np.random.default_rng(int(rng.integers(1 << 30)))).build), inplace=False, lists=False)
+    # map_neuronlist with parallel=True but nothing to parallelise (one core / one neuron): still must not touch the inputs
+    add('prune_twigs(parallel, n_cores=1)', 'sk', lambda x, p, i: navis.prune_twigs(x, 8.0, parallel=True, n_cores=1, **kw(i)), list_only=True)
+    add('downsample_neuron(parallel, n_cores=1)', 'sk', lambda x, p, i: navis.downsample_neuron(x, 2, parallel=True, n_cores=1, **kw(i)), list_only=True)
+    add('prune_twigs(parallel, one neuron)', 'sk', lambda x, p, i: navis.prune_twigs(x[:1], 8.0, parallel=True, n_cores=2, **kw(i)), inplace=False, list_only=True)
     # functions whose INPUT is a list of neurons: every member is an input (ids overlapping between members on purpose)
     for meth in ('LEAFS', 'NONE', 'ALL'):
         add('stitch_skeletons(list,%s)' % meth, 'sk', (lambda meth: lambda x, p, i: navis.stitch_skeletons(x, method=meth))(meth), inplace=False, list_only=True, same_ids=True)
